@@ -244,6 +244,17 @@ def run(prog, rep):
             good = len(inner) == 1 and inner[0].args[1] == ("param", ppn[2]) and len(mat) == 1 and terms.mentions_param(mat[0].args[0], ppn[2]) and "vertices(" in pt(mat[0].args[0])
             rep.check(good, "C17-R5", "print_results_full/states", f"{pf.file}:{pf.line}", "exhaustive mode lists results.vertices()",
                       "exhaustive mode does not list the vertices of the evaluated set")
+            # the summary block is printed for every result (an empty one included): the call is not under any condition
+            uncond = len(inner) == 1 and not any(c[0] in ("if", "match") for c in inner[0].pc)
+            rep.check(uncond, "C17-R5", "print_results_full/summary-always", inner[0].where() if inner else f"{pf.file}:{pf.line}",
+                      "the summary (formula, counts) is printed unconditionally before the states",
+                      "the summary block of the exhaustive mode is only printed under a condition on the result: for some results the formula and its counts are missing")
+        # the printers are reached for every evaluated formula: the calls in the evaluation loop are conditioned on the print option only
+        for c in calls:
+            idx = max([i for i, e_ in enumerate(c.pc) if e_[0] == "loop"] + [-1])
+            bad = [pt(t)[:80] for t, pol in q.conds(c.pc[idx + 1:]) if not terms.mentions_param(t, pn[2]) and not (pol and q.is_ok_test(t) is not None)]
+            rep.check(not bad, "C17-R5", f"analyse_formulae/printer-reached@{c.ordinal}", c.where(), "the printer call depends on the print option only",
+                      f"the printer is only called under {bad}: some results are not reported")
     # the archived sets: result i goes into the result map under `formula-<i>` for every formula and every print option, and the
     # map is what the archive writer receives (shared with C16-R3)
     sub = type(rep)("C17a")
